@@ -139,6 +139,7 @@ func cmdCheck(args []string) {
 	updateBaseline := fs.Bool("update-baseline", false, "rewrite obligations/<id>.json from this run (maintainer only)")
 	evidenceDir := fs.String("evidence", filepath.Join(verifRoot, "evidence"), "evidence directory")
 	verbose := fs.Bool("v", false, "print every obligation")
+	baselineDir := fs.String("baseline-dir", filepath.Join(verifRoot, "obligations"), "directory of the shipped obligation lists (the seeded-change corpus reads a snapshot)")
 	fs.Parse(args)
 	if fs.NArg() != 1 {
 		fmt.Fprintln(os.Stderr, "usage: govc check [--tier quick|thorough] <property-id>")
@@ -163,7 +164,7 @@ func cmdCheck(args []string) {
 	wall := time.Since(t0).Seconds()
 
 	// baseline comparison
-	basePath := filepath.Join(verifRoot, "obligations", id+".json")
+	basePath := filepath.Join(*baselineDir, id+".json")
 	var baseline []string
 	if data, err := os.ReadFile(basePath); err == nil {
 		json.Unmarshal(data, &baseline)
